@@ -3,6 +3,7 @@ import Driver.Ops.C07
 import Driver.Ops.C17
 import Driver.Ops.Std
 import Driver.Ops.C09
+import Driver.Ops.C10
 namespace ZVD
 
 def allOps : OpTable :=
@@ -11,6 +12,7 @@ def allOps : OpTable :=
   ++ opsC17
   ++ opsStd
   ++ opsC09
+  ++ opsC10
 
 def dispatch (op : String) (a : Args) : Except String String :=
   match allOps.find? (·.1 == op) with
